@@ -59,7 +59,10 @@ def computer_cfg(rng, rate, allow_none):
             bank["scaling_function"] = str(rng.choice(["mel", "bark"]))
         if kind in ("fbank", "tri"):
             bank["analytic"] = bool(rng.random() < 0.3)
-        return {"name": "stft", "bank": bank, "frame_length_ms": float(rng.choice([25, 20, 12.5])), "frame_shift_ms": float(rng.choice([10, 5, 7.5])),
+        fl_ms = float(rng.choice([25, 20, 12.5]))
+        if rng.random() < 0.35:
+            fl_ms += 1000.0 / rate + 1e-6  # one more sample: an odd frame length (and an odd DFT size when unpadded)
+        return {"name": "stft", "bank": bank, "frame_length_ms": fl_ms, "frame_shift_ms": float(rng.choice([10, 5, 7.5])),
                 "frame_style": str(rng.choice(["centered", "causal"])), "include_energy": bool(rng.random() < 0.4), "pad_to_nearest_power_of_two": bool(rng.random() < 0.7),
                 "window_function": str(rng.choice(["hanning", "hamming", "blackman"])), "use_log": bool(rng.random() < 0.7), "use_power": bool(rng.random() < 0.5),
                 "kaldi_shift": bool(rng.random() < 0.4)}
@@ -343,6 +346,40 @@ def run_torch(scn, d, mp, syntax, seed_opt, tag, stats_path):
     return {"rc": rc, "out": out}
 
 
+SUBPROC = r'''
+import json, sys
+sys.path.insert(0, sys.argv[1])
+from vf.props import C09
+import numpy as np
+scn = json.load(open(sys.argv[2]))
+runner = C09.run_kaldi if scn["tool"] == "kaldi" else C09.run_torch
+res = runner(scn, sys.argv[3], sys.argv[4], "inline", int(sys.argv[5]), sys.argv[6], sys.argv[7])
+np.savez(sys.argv[8], **{k: v for k, v in res["out"].items() if v is not None})
+print("RC", res["rc"])
+'''
+
+
+def run_in_subprocess(scn, d, path, seed_opt, tag, stats_path):
+    """run the tool through a fresh interpreter (default, i.e. random, str-hash salt) and return what it stored"""
+    import subprocess
+    import sys
+
+    sp = os.path.join(d, "scn_%s.json" % tag)
+    json.dump(scn, open(sp, "w"))
+    outp = os.path.join(d, "sub_%s.npz" % tag)
+    env = dict(os.environ)
+    env.pop("PYTHONHASHSEED", None)
+    verif = os.path.dirname(os.path.dirname(os.path.dirname(os.path.abspath(__file__))))
+    try:
+        p = subprocess.run([sys.executable, "-c", SUBPROC, verif, sp, d, path, str(seed_opt), tag, stats_path, outp], env=env, capture_output=True, text=True, timeout=600)
+    except subprocess.TimeoutExpired:
+        return None
+    if not os.path.exists(outp) or "RC 0" not in p.stdout and "RC None" not in p.stdout:
+        return None
+    with np.load(outp) as z:
+        return {k: np.array(z[k]) for k in z.files}
+
+
 class Spy:
     def __init__(self):
         self.calls = {}
@@ -478,6 +515,18 @@ def run_case(case, rec, mon=None):
             if set(res2["out"]) != set(res["out"]) or any(not np.array_equal(res["out"][k], res2["out"][k]) for k in res["out"] if res["out"][k] is not None):
                 v("configuration given as %s and as %s gives different output (fixed --seed)" % (scn["syntax"][0], scn["syntax"][1]), check="syntax")
             if scn["kind"] == "dither":
+                # two separate interpreter processes, as two invocations of the console script would be
+                outs = []
+                for tag in ("p1", "p2"):
+                    r = run_in_subprocess(scn, d, path, scn["seed_opt"], tag, stats_path)
+                    outs.append(r)
+                rec.count("cross_process_seed_pairs")
+                if outs[0] is None or outs[1] is None:
+                    v("running the %s tool in a separate process failed" % tool, check="subprocess")
+                elif set(outs[0]) != set(outs[1]) or any(not np.array_equal(outs[0][k], outs[1][k]) for k in outs[0]):
+                    v("two separate invocations with the same --seed give different output", check="seed_across_processes")
+                elif any(not np.array_equal(outs[0][k], res["out"][k]) for k in outs[0] if res["out"].get(k) is not None):
+                    v("a separate invocation gives different output than the in-process run with the same --seed", check="seed_across_processes")
                 other = runner(scn, d, path, scn["syntax"][0], scn["seed_opt"] + 1, "c", stats_path)
                 same = all(np.array_equal(res["out"][k], other["out"].get(k)) for k in res["out"] if res["out"][k] is not None and res["out"][k].size)
                 rec.count("dither_seed_checks")
@@ -548,7 +597,7 @@ def run_shard(spec, rec):
 
 
 def finish(rec):
-    for k in ("scenarios_kaldi", "scenarios_torch", "stored_utterances_compared", "utterances_too_short_for_a_frame", "scenario_kind_pipeline"):
+    for k in ("scenarios_kaldi", "scenarios_torch", "stored_utterances_compared", "utterances_too_short_for_a_frame", "scenario_kind_pipeline", "cross_process_seed_pairs"):
         if not rec.counters[k]:
             rec.inconc("class %s never observed" % k)
 
